@@ -1,5 +1,7 @@
 import BR.Lemmas.LruOrder
+import BR.Lemmas.DiskReach
 import BR.Bridge.Lru
+import BR.Bridge.Disk
 /-!
 # C03 — accounted size never exceeds max_size and equals entries plus reservations
 
@@ -68,6 +70,21 @@ theorem sumLargerThan_exact (a b c : Int) (ha : 0 < a) (hb : 0 ≤ b) (ha' : a <
 theorem roundUp4k_bits (n : BitVec 64) (h : n.toNat + 4095 < 2 ^ 63) :
     ((roundUp4kBV n).toNat : Int) = roundUp4k (n.toNat : Int) := roundUp4kBV_eq n h
 
+/-- **C03 at the disk layer, every sequential history**: in every state reachable by any finite
+sequence of Put / get / Contains requests — successful, rejected, failed at any stage (reservation
+refused, short/long/failing stream, wrong hash, commit refused), with any back-end answer or fault —
+and background-remover runs, the accounted size is exactly reservations + rounded entries and at
+most `max_size`, the logical total is exact, and **the reserved bytes are zero** (every request
+returned its reservation). -/
+theorem disk_accounting_all_histories {C : BR.CasBlob.Codec} {H : BR.CasBlob.Bytes → String}
+    {cfg : BR.Disk.Cfg} {m hl : Int} (h0 : 0 ≤ m) (h1 : m < 9223372036854775808) {d : BR.Disk.Disk}
+    (hr : BR.Disk.Reach C H cfg m hl d) :
+    d.lru.cur = sumDisk d.lru.order ∧ d.lru.cur ≤ d.lru.maxSize ∧ d.lru.unc = sumSize d.lru.order ∧
+      d.lru.res = 0 ∧ (d.lru.order.map Elem.key).Nodup := by
+  obtain ⟨hinv, hres⟩ := BR.Disk.reach_inv h0 h1 hr
+  have := hinv.lru.cur_eq
+  exact ⟨by omega, hinv.lru.cur_le, hinv.lru.unc_eq, hres, hinv.lru.keys_nodup⟩
+
 /-! non-vacuity: a concrete history (with an overwrite, an eviction and a reservation) meets the
 hypotheses, and its final state is what the theorem describes -/
 def sampleOps : List Op :=
@@ -79,6 +96,7 @@ example : (∀ op ∈ sampleOps, op.Wf) ∧ (run (init 20480 0) sampleOps).cur =
   refine ⟨by simp [sampleOps, Op.Wf], by decide, by decide⟩
 
 #print axioms accounting_exact_and_bounded
+#print axioms disk_accounting_all_histories
 #print axioms loops_never_stuck
 #print axioms reserve_unreserve_restores
 #print axioms sumLargerThan_exact
